@@ -25,10 +25,75 @@ BYTES_NOTE = 'field part only; byte packing / unpacking modelled by hand'
 
 
 class AlgModule(object):
-    def __init__(self, name, files, items):
+    def __init__(self, name, files, items, vec=None):
         self.name = name
         self.files = files      # priority order; files[0] is the source of the items
         self.items = items
+        self.vec = vec          # parallel formulas: dict(kinds, field, consts, layout)
+        self.ext = []           # extension entries of this module's constant table
+
+
+F_AVX2_EDW = CD + 'backend/vector/avx2/edwards.rs'
+F_AVX2_FIELD = CD + 'backend/vector/avx2/field.rs'
+F_AVX2_CONST = CD + 'backend/vector/avx2/constants.rs'
+F_IFMA_EDW = CD + 'backend/vector/ifma/edwards.rs'
+F_IFMA_FIELD = CD + 'backend/vector/ifma/field.rs'
+F_IFMA_CONST = CD + 'backend/vector/ifma/constants.rs'
+
+LIT_EVAL = None     # set by rs2lean: (SourceFile, constant name) -> nested list of ints
+P25519 = 2 ** 255 - 19
+W26 = [0, 26, 51, 77, 102, 128, 153, 179, 204, 230]
+AVX2_LANE = {(0, 0): 0, (1, 0): 1, (0, 1): 2, (1, 1): 3, (2, 0): 4, (3, 0): 5, (2, 1): 6, (3, 1): 7}
+
+
+def lane_values(layout, rows):
+    """values mod p of lanes A..D of a vector constant given by its limb rows"""
+    if layout == 'avx2':
+        if len(rows) != 5 or any(len(r) != 8 for r in rows):
+            raise TransErr('vector constant is not 5 x u32x8')
+        return [sum(rows[k // 2][AVX2_LANE[(e, k % 2)]] << W26[k] for k in range(10)) % P25519 for e in range(4)]
+    if len(rows) != 5 or any(len(r) != 4 for r in rows):
+        raise TransErr('vector constant is not 5 x u64x4')
+    return [sum(rows[k][e] << (51 * k) for k in range(5)) % P25519 for e in range(4)]
+
+
+def vec_items(ext_select=True):
+    E, C = 'ExtendedPoint', 'CachedPoint'
+    items = _vec_items(E, C)
+    if not ext_select:      # the IFMA ExtendedPoint has no ConditionallySelectable impl
+        items = [i for i in items if not i.name.startswith('ExtendedPoint_conditional_')]
+    return items
+
+
+def _vec_items(E, C):
+    return [
+        S('ExtendedPoint_from_EdwardsPoint', 'from', container=E, trait='From', trait_arg='EdwardsPoint',
+          expect=(4, 4), note='inputs X, Y, Z, T; outputs the lanes A, B, C, D'),
+        S('EdwardsPoint_from_ExtendedPoint', 'from', container='EdwardsPoint', trait='From', trait_arg=E,
+          expect=(4, 4), note='inputs the lanes A, B, C, D; outputs X, Y, Z, T'),
+        S('CachedPoint_from_ExtendedPoint', 'from', container=C, trait='From', trait_arg=E, expect=(4, 4)),
+        S('ExtendedPoint_double', 'double', container=E, expect=(4, 4)),
+        S('ExtendedPoint_mul_by_pow_2_body', 'mul_by_pow_2', container=E, expect=(4, 4), loop_once=True,
+          same_as='ExtendedPoint_double', note='one iteration of the loop of mul_by_pow_2'),
+        S('ExtendedPoint_add_CachedPoint', 'add', container=E, trait='Add', trait_arg=C, expect=(8, 4)),
+        S('ExtendedPoint_sub_CachedPoint', 'sub', container=E, trait='Sub', trait_arg=C, expect=(8, 4)),
+        S('CachedPoint_neg', 'neg', container=C, trait='Neg', expect=(4, 4)),
+        S('ExtendedPoint_identity', 'identity', container=E, trait='Identity', expect=(0, 4)),
+        S('CachedPoint_identity', 'identity', container=C, trait='Identity', expect=(0, 4)),
+        S('ExtendedPoint_conditional_select', 'conditional_select', container=E, trait='ConditionallySelectable',
+          expect=(9, 4)),
+        S('ExtendedPoint_conditional_assign', 'conditional_assign', container=E, trait='ConditionallySelectable',
+          expect=(9, 4)),
+        S('CachedPoint_conditional_select', 'conditional_select', container=C, trait='ConditionallySelectable',
+          expect=(9, 4)),
+        S('CachedPoint_conditional_assign', 'conditional_assign', container=C, trait='ConditionallySelectable',
+          expect=(9, 4)),
+    ]
+
+
+VEC_NOTE = ('vector field API abstracted at VALUE level (lane-wise add/neg/mul/square, named shuffles/blends as '
+            'renamings, reductions and Reduced/Unreduced conversions as identity); the limb-level behaviour is '
+            'covered by Dalek.Gen.%s')
 
 
 def S(name, fn, **kw):
@@ -126,10 +191,74 @@ ALG_MODULES = [
           note='per-point closure of double_and_compress_batch: inputs the BatchCompressState fields then inv; '
                'output s before as_bytes; batch inversion and iterator plumbing modelled by hand; ' + BYTES_NOTE),
     ]),
+    AlgModule('AlgAvx2Edwards', [F_AVX2_EDW, F_EDWARDS], vec_items(),
+              vec=dict(kinds={'FieldElement2625x4': 'unreduced'}, field=F_AVX2_FIELD, consts=F_AVX2_CONST,
+                       layout='avx2', limb='Avx2Field')),
+    AlgModule('AlgIfmaEdwards', [F_IFMA_EDW, F_EDWARDS], vec_items(ext_select=False),
+              vec=dict(kinds={'F51x4Unreduced': 'unreduced', 'F51x4Reduced': 'reduced'}, field=F_IFMA_FIELD,
+                       consts=F_IFMA_CONST, layout='ifma', limb='IfmaField')),
 ]
+
+ALG_FILES += [F_AVX2_EDW, F_IFMA_EDW]
 
 
 # ---------------------------------------------------------------------------------------------
+
+def enum_variants_of(sf, name):
+    for it in sf.walk():
+        if it.kind == 'enum' and it.name == name:
+            toks = it.toks
+            i = it.start
+            while toks[i][1] != '{':
+                i += 1
+            end = rslex.match_delim(toks, i) - 1
+            out = []
+            j = i + 1
+            while j < end:
+                t = toks[j]
+                if t[0] == 'p' and t[1] == '#':
+                    j = rslex.match_delim(toks, j + 1)
+                    continue
+                if t[0] == 'id':
+                    out.append(t[1])
+                j += 1
+            return out
+    raise TransErr('enum %s not found in %s' % (name, sf.relname))
+
+
+def setup_vec(srcs, mod, ctx):
+    v = mod.vec
+    ctx.vec_kinds = dict(v['kinds'])
+    fsf = srcs.get(v['field'])
+    ctx.vec_enums = {'Shuffle': enum_variants_of(fsf, 'Shuffle'), 'Lanes': enum_variants_of(fsf, 'Lanes')}
+    ctx.ext_consts = mod.ext
+    csf = srcs.get(v['consts'])
+    main = ctx.files[0]
+
+    def resolver(name):
+        it = None
+        for x in csf.items:
+            if x.kind in ('const', 'static') and x.name == name:
+                it = x
+        if it is None or it.ty_rng is None or LIT_EVAL is None:
+            return None
+        ty = [t[1] for t in it.toks[it.ty_rng[0]:it.ty_rng[1]]]
+        if len(ty) != 1:
+            return None
+        st = ctx.find_struct(ty[0])
+        if st is None:
+            return None
+        fs = rslex.struct_fields(st)
+        if len(fs) != 1:
+            return None
+        fty = rsparse.parse_type_range(st.toks, fs[0][1][0], fs[0][1][1], st.fname)
+        kind = fty[2][-1] if fty[0] == 'tpath' else None
+        if kind not in ctx.vec_kinds:
+            return None
+        rows = LIT_EVAL(csf, name)
+        return ty[0], kind, lane_values(v['layout'], rows), rows
+    ctx.vec_const = resolver
+
 
 def field_const_names(srcs):
     """constant table shared by all Alg modules: FieldElement::{ZERO,ONE,MINUS_ONE} followed by the
@@ -233,6 +362,8 @@ def translate_alg_item(srcs, mod, spec, const_names, item_errors):
     try:
         files = [srcs.get(f) for f in mod.files]
         ctx = algir.AlgCtx(files, const_names)
+        if mod.vec:
+            setup_vec(srcs, mod, ctx)
         item, imp = find_root(ctx, spec)
         res['root'] = item.qualname()
         res['line'] = item.line
@@ -326,11 +457,38 @@ def lean_sh(r):
     return '\n'.join(lines) + '\n'
 
 
+def ext_key(name):
+    return (0 if name.startswith('u32:') else 1, int(name.split(':')[1]))
+
+
+def finalize_consts(mod, rs, const_names):
+    """per-module constant table = the shared entries followed by this module's integer constants (ascending);
+    resolves the ('ext', name) placeholders in the bodies."""
+    names = list(const_names) + sorted(set(mod.ext), key=ext_key)
+    index = dict((n, i) for i, n in enumerate(names))
+    for r in rs:
+        if r['status'] == 'ok':
+            r['body'] = [(op, index[p[1]] if isinstance(p, tuple) else p, args) for op, p, args in r['body']]
+    return names
+
+
 def emit_modules(header, mod, rs, const_names):
+    const_names = finalize_consts(mod, rs, const_names)
+    mod.const_names = const_names
+    for spec, r in zip(mod.items, rs):
+        if spec.same_as and r['status'] == 'ok':
+            o = [x for x in rs if x['name'] == spec.same_as]
+            same = bool(o) and o[0]['status'] == 'ok' and o[0]['body'] == r['body'] and o[0]['outs'] == r['outs'] \
+                and o[0]['n_in'] == r['n_in']
+            r['same_as'] = spec.same_as if same else None
+            r['notes'] = r['notes'] + [('program is identical to item `%s`' if same else
+                                        'program differs from item `%s`') % spec.same_as]
+        if mod.vec and r['status'] == 'ok':
+            r['notes'] = r['notes'] + [VEC_NOTE % mod.vec['limb']]
     deep = [header, 'import Dalek.IR.Alg\n', 'namespace Dalek.Gen.%s' % mod.name, 'open Dalek.IR\n',
             '/-! source: `%s` (callees inlined from %s) -/\n' % (mod.files[0], ', '.join(mod.files[1:]) or '-'),
-            '/-- constant table of the `FOp.const i` operations: index ↦ Rust path (identical in all '
-            '`Dalek.Gen.Alg*` modules) -/',
+            '/-- constant table of the `FOp.const i` operations: index ↦ Rust path (the first %d entries are '
+            'identical in all `Dalek.Gen.Alg*` modules; `u32:<n>` / `int:<n>` are the integer n) -/' % 14,
             'def constNames : List String := [%s]\n' % ', '.join(json.dumps(n) for n in const_names)]
     sh = [header, 'import Dalek.IR.Tactics', 'import Dalek.Gen.%s\n' % mod.name,
           'set_option linter.unusedVariables false\n',
@@ -361,7 +519,128 @@ def manifest_entry(r):
          'constants': r['constants'], 'notes': r['notes']}
     if r.get('note'):
         m['description'] = r['note']
+    if 'same_as' in r:
+        m['same_as'] = r['same_as']
     if r['status'] == 'ok':
         m['inputs'] = ['%s:%s' % (n, s) for n, s in zip(r['in_names'], r['in_sorts'])]
         m['outputs'] = ['%s:%s' % (n, s) for n, s in zip(r['out_names'], r['out_sorts'])]
+    return m
+
+
+# ---------------------------------------------------------------------------------------------
+# kernel-call programs (KProg) for the parallel point formulas
+# ---------------------------------------------------------------------------------------------
+
+K_MODULES = [('KAvx2Edwards', 'AlgAvx2Edwards'), ('KIfmaEdwards', 'AlgIfmaEdwards')]
+
+
+def k_backend(mod, limb_results):
+    import kir
+    v = mod.vec
+    kernels = {}
+    for r in limb_results:
+        if r['status'] == 'ok':
+            ident = r['n_stmts'] == 0 and r['outs'] == list(range(r['n_in']))
+            kernels[r['name']] = (r['n_in'], r['n_out'], ident)
+    kinds = {'U': None, 'R': None}
+    for n, c in v['kinds'].items():
+        kinds['U' if c == 'unreduced' else 'R'] = n
+    words = 40 if v['layout'] == 'avx2' else 20
+    return kir.Backend(mod.name, v['limb'], kinds, words, kernels)
+
+
+def translate_k_item(srcs, mod, spec, const_names, backend, item_errors):
+    import kir
+    res = {'module': 'K' + mod.name[3:], 'name': spec.name, 'source': mod.files[0], 'status': 'failed', 'message': '',
+           'root': spec.fn, 'line': 0, 'n_in': None, 'n_out': None, 'n_stmts': None, 'sha256': None,
+           'covers': [], 'notes': [], 'note': spec.note, 'kernels': []}
+    try:
+        files = [srcs.get(f) for f in mod.files]
+        ctx = algir.AlgCtx(files, const_names)
+        saved = mod.ext
+        mod.ext = []
+        setup_vec(srcs, mod, ctx)
+        mod.ext = saved
+        item, imp = find_root(ctx, spec)
+        res['root'] = item.qualname()
+        res['line'] = item.line
+        tr = kir.KTranslator(ctx, spec, backend)
+        r = tr.translate_fn(item, imp)
+        res.update(r)
+        res['n_out'] = len(r['outs'])
+        res['n_stmts'] = len(r['body'])
+        res['covers'] = [(it.fname, it.qualname(), it.line) for it in tr.visited]
+        res['notes'] = tr.notes
+        res['sha256'] = token_hash(tr.visited)
+        res['status'] = 'ok'
+    except item_errors as ex:
+        res['status'] = 'failed'
+        res['message'] = 'recursion limit exceeded' if isinstance(ex, RecursionError) else str(ex)
+    return res
+
+
+def lean_karg(a):
+    if a[0] == 'var':
+        return '.var %d' % a[1]
+    return '.lit [%s]' % ', '.join(str(x) for x in a[1])
+
+
+def emit_k_module(header, kname, mod, rs, backend):
+    limb = 'Dalek.Gen.' + mod.vec['limb']
+    out = [header, 'import Dalek.IR.KProg', 'import %s\n' % limb, 'namespace Dalek.Gen.%s' % kname, 'open Dalek.IR\n',
+           '/-! source: `%s`; every vector-field operation is one call of the translated kernel of `%s` -/\n'
+           % (mod.files[0], limb)]
+    lits = sorted(set(k for r in rs if r['status'] == 'ok' for k in r['kernels'] if k.startswith('litCopy')),
+                  key=lambda k: int(k[7:]))
+    for k in lits:
+        n = int(k[7:])
+        out.append('/-- identity kernel on %d words (used to return a literal value) -/' % n)
+        out.append('def %s : Prog := { nIn := %d, body := [], outs := List.range %d }\n' % (k, n, n))
+    ok = []
+    for r in rs:
+        if r['status'] != 'ok':
+            out.append('-- FAILED %s: %s\n' % (r['name'], r['message'].replace('\n', ' ')))
+            continue
+        ok.append(r['name'])
+        doc = ['`%s` -- translated from `%s` (%s:%d).' % (r['name'], r['root'], r['source'], r['line']),
+               'nIn = %d values, nOut = %d values, statements (kernel calls) = %d.' % (r['n_in'], r['n_out'], r['n_stmts']),
+               'inputs:  ' + ('; '.join('%d = %s' % (i, n) for i, n in enumerate(r['in_names'])) or '(none)'),
+               'outputs: ' + '; '.join('%s [%d words]' % (n, w) for n, w in zip(r['out_names'], r['out_widths']))]
+        if r.get('note'):
+            doc.append(r['note'])
+        for n in r['notes']:
+            doc.append('note: ' + n)
+        out.append('/-- ' + '\n'.join(doc).replace('-/', '- /') + ' -/')
+        out.append('def %s : KProg where' % r['name'])
+        out.append('  nIn := %d' % r['n_in'])
+        if r['body']:
+            out.append('  body := [')
+            lines = []
+            for k, args in r['body']:
+                kn = k if k.startswith('litCopy') else '%s.%s' % (limb, k)
+                lines.append('    ⟨%s, [%s]⟩' % (kn, ', '.join(lean_karg(a) for a in args)))
+            out.append(',\n'.join(lines))
+            out.append('  ]')
+        else:
+            out.append('  body := []')
+        out.append('  outs := [%s]\n' % ', '.join(str(o) for o in r['outs']))
+    out.append('/-- names of the successfully translated items of this module -/')
+    out.append('def itemNames : List String := [%s]\n' % ', '.join(json.dumps(n) for n in ok))
+    out.append('/-- the successfully translated items of this module, by name -/')
+    out.append('def items : List (String × KProg) := [%s]\n' % ', '.join('(%s, %s)' % (json.dumps(n), n) for n in ok))
+    out.append('end Dalek.Gen.%s\n' % kname)
+    return '\n'.join(out)
+
+
+def k_manifest_entry(r):
+    m = {'module': 'Dalek.Gen.' + r['module'], 'ir': 'KProg', 'name': r['name'], 'source': r['source'],
+         'root': r['root'], 'line': r['line'], 'status': r['status'], 'message': r['message'],
+         'n_in': r['n_in'], 'n_out': r['n_out'], 'n_stmts': r['n_stmts'], 'sha256': r['sha256'],
+         'kernels': r['kernels'], 'notes': r['notes'],
+         'covers': ['%s:%d %s' % (c[0], c[2], c[1]) for c in r['covers']]}
+    if r['status'] == 'ok':
+        m['inputs'] = r['in_names']
+        m['input_widths'] = r['in_widths']
+        m['outputs'] = r['out_names']
+        m['output_widths'] = r['out_widths']
     return m
